@@ -47,6 +47,8 @@ type Contract struct {
 	Loops     map[int]*LoopSpec
 	Closures  map[int]*Contract // closure ordinal -> contract (invariants etc.)
 	IterInvs  []*Clause         // closure contracts: iteration invariants of the call that runs the callback
+	IterCont  []*Clause         // ... that hold while the iteration goes on (at the call and after every run that returns true)
+	IterStop  []*Clause         // ... that hold after a run that returns false (the iteration stops there)
 	File      string
 	Line      int
 	Witnesses map[string]string
@@ -116,7 +118,7 @@ var labelRe = regexp.MustCompile(`^([a-zA-Z][a-zA-Z0-9_\-]*):\s+(.*)$`)
 
 var keywords = map[string]bool{"channel": true, "func": true, "interface": true, "props": true, "requires": true, "ensures": true,
 	"modifies": true, "nopanic": true, "inline": true, "pure": true, "loop": true, "closure": true, "invariant": true,
-	"ghost": true, "allocates": true, "like": true, "sets": true, "axiom": true, "note": true, "reads": true, "abstract": true, "end": true, "access": true, "keyspace": true, "confined": true, "callsites": true, "unreachable": true, "assumes": true}
+	"ghost": true, "allocates": true, "like": true, "sets": true, "axiom": true, "note": true, "reads": true, "abstract": true, "end": true, "access": true, "keyspace": true, "confined": true, "callsites": true, "unreachable": true, "assumes": true, "continuing": true, "stopped": true}
 
 // parseSpecFile reads //@ lines (or bare lines in .spec files) into the db.
 // pkgShort qualifies unqualified function keys.
@@ -309,6 +311,22 @@ func (db *SpecDB) parseSpecFile(path string, src []byte, pkgShort string, truste
 				return err
 			}
 			curLoop.Invs = append(curLoop.Invs, c)
+		case "continuing", "stopped":
+			// under `closure N` (a callback that ends the iteration by returning false): `continuing` holds at the call and
+			// after every run that returns true, and is assumed before a run; `stopped` holds after a run that returns false.
+			// After the call: the invariants, and (all `continuing` clauses or all `stopped` clauses).
+			if tgt == nil || tgt == cur || curLoop != nil {
+				return fmt.Errorf("%s: %s belongs directly under `closure N`", loc, word)
+			}
+			c, err := mkClause(rest)
+			if err != nil {
+				return err
+			}
+			if word == "continuing" {
+				tgt.IterCont = append(tgt.IterCont, c)
+			} else {
+				tgt.IterStop = append(tgt.IterStop, c)
+			}
 		case "ghost":
 			f := strings.SplitN(rest, " ", 2)
 			if len(f) < 2 {
